@@ -763,7 +763,14 @@ fn analyze_builtin(
 			}
 		}
 		Builtin::Panic => analyze_format_arguments(name, arguments),
-		Builtin::IncludeBytes => todo!(),
+		Builtin::IncludeBytes =>
+		{
+			// This builtin is reserved but not implemented, hence undefined.
+			Err(Error::UndefinedFunction {
+				name: format!("{}!", name.name),
+				location: name.location.clone(),
+			})
+		}
 	}
 }
 
